@@ -93,20 +93,31 @@ theorem finish_src_eq (st : State) (hb : st.buffer.length = 16) :
 
 /-! ### `input` -/
 
-/-- the whole-block `while` loop = the model's `blocks` (the two redundant slice checks of the source never fire) -/
-theorem input_loop1_eq (fuel : Nat) : ∀ (st : State) (m : Bytes),
-    Poly1305.input_loop1_src fuel st m = blocks fuel st m := by
+/-- the whole-block `while` loop = the model's `blocks` (the two redundant slice checks of the source never fire).  The generated
+    loop FAILS (`.diverge`) when its fuel runs out, the model's `blocks` stops silently; they agree whenever the fuel bounds the
+    iterations (`m.length ≤ fuel`: every iteration consumes 16 bytes) — the generated call passes `m.length + 1`: one unit pays for
+    the last, false, test of the condition -/
+theorem input_loop1_eq (fuel : Nat) : ∀ (st : State) (m : Bytes), m.length ≤ fuel →
+    Poly1305.input_loop1_src (fuel + 1) st m = blocks fuel st m := by
   induction fuel with
-  | zero => intro st m; rfl
+  | zero =>
+    intro st m hm
+    have h : ¬ m.length ≥ 16 := by omega
+    simp only [Poly1305.input_loop1_src, blocks, if_neg h]
   | succ n ih =>
-    intro st m
+    intro st m hm
     unfold Poly1305.input_loop1_src blocks
     by_cases h : m.length ≥ 16
     · simp only [if_pos h, block_src_eq]
       cases block st (m.take 16) with
       | error e => rfl
-      | ok st' => simp only [ih]
+      | ok st' =>
+        have hd : (m.drop 16).length ≤ n := by simp only [List.length_drop]; omega
+        simp only [ih st' (m.drop 16) hd]
     · simp only [if_neg h]
+
+/-- fuel exhaustion of the generated loop is a failure, never a value -/
+theorem input_loop1_zero (st : State) (m : Bytes) : Poly1305.input_loop1_src 0 st m = .error .diverge := rfl
 
 /-- fuel adequacy: with fuel `≥ m.length` the loop ends because its condition is false -/
 theorem blocks_exit (fuel : Nat) : ∀ (st st' : State) (m m' : Bytes), m.length ≤ fuel →
@@ -128,6 +139,30 @@ theorem blocks_exit (fuel : Nat) : ∀ (st st' : State) (m m' : Bytes), m.length
         exact ih s1 st' (m.drop 16) m' (by simp; omega) h
     · simp only [if_neg hm] at h
       injection h with h; injection h with _ h2; subst h2; omega
+
+/-- the hand models never produce `.diverge` (it exists only for exhausted fuel of generated loops) -/
+theorem block_ne_diverge (st : State) (m : Bytes) : block st m ≠ .error .diverge := by
+  unfold block
+  by_cases h : m.length < 16
+  · simp [h]
+  · simp only [if_neg h]
+    split <;> (split <;> simp)
+
+theorem blocks_ne_diverge (fuel : Nat) : ∀ (st : State) (m : Bytes), blocks fuel st m ≠ .error .diverge := by
+  induction fuel with
+  | zero => intro st m; simp [blocks]
+  | succ n ih =>
+    intro st m
+    unfold blocks
+    by_cases hm : m.length ≥ 16
+    · simp only [if_pos hm]
+      cases hb : block st (m.take 16) with
+      | error e =>
+        intro h
+        have : e = .diverge := by injection h
+        exact block_ne_diverge st (m.take 16) (this ▸ hb)
+      | ok s1 => exact ih s1 (m.drop 16)
+    · simp [if_neg hm]
 
 /-- `blocks` changes only `h` -/
 theorem blocks_frame (fuel : Nat) : ∀ (st st' : State) (m m' : Bytes),
@@ -156,7 +191,7 @@ theorem blocks_frame (fuel : Nat) : ∀ (st st' : State) (m m' : Bytes),
 theorem input_k1_eq (st : State) (m : Bytes) (hb : st.buffer.length = 16) :
     Poly1305.input_k1_src st m = inputTail st m := by
   unfold Poly1305.input_k1_src inputTail
-  rw [input_loop1_eq]
+  rw [input_loop1_eq m.length st m (Nat.le_refl _)]
   cases hbl : blocks m.length st m with
   | error e => rfl
   | ok p =>
